@@ -99,7 +99,7 @@ Init == /\ tree \in Roots \cup TwinRoots
 \* quick: item number i goes to root position (i mod nh) + 1 only; thorough: everywhere
 \* (quick: user node items below a selection of root kinds only, nothing but plain leaves below
 \* a user node root)
-UserHosts == {"Sum", "Product", "Call", "CallKw", "If", "CSE", "Tup", "Power"}
+UserHosts == {"Sum", "Call", "CallKw", "If", "CSE", "Tup", "Quotient"}
 ItemAllowedAt(i, p) ==
     \/ Tier # "quick"
     \/ /\ (i % nh) + 1 = p
